@@ -332,8 +332,13 @@ def run_C09(chk, with_proof=True):
                 notrun = sorted(set(want_exec) - set(executed))[:4]
                 extra = sorted(set(executed) - set(want_exec))[:4]
                 twice = sorted({x for x in executed if executed.count(x) > 1})[:4]
-                if rc == 0 or extra or twice:
-                    chk.violation("selection" if rc == 0 else "selection-extra", "%s (exit %s): selected but not executed %s, executed but not selected %s, executed more than once %s" % (
+                # tests of libraries behind a missing library are not in want_exec (the run is refused there, loudly, which
+                # the statement allows); every other selected test has to run, whatever happened in the libraries before
+                # it - unless the runner's own process was killed by the single test it ran in-process
+                killed = rc is not None and rc < 0
+                if rc == 0 or extra or twice or (notrun and not killed):
+                    chk.violation("selection" if rc == 0 else "selection-extra" if (extra or twice) else "selection-not-run",
+                                  "%s (exit %s): selected but not executed %s, executed but not selected %s, executed more than once %s" % (
                         " ".join(args), rc, notrun, extra, twice), rp)
             if (rc != 0) != want_fail:
                 chk.violation("exit-status", "%s: exit status %s, expected %s (nothing selected / missing library / a selected test fails => failure)" % (" ".join(args), rc, "failure" if want_fail else "success"), rp)
